@@ -67,9 +67,159 @@ def run_all(chk, fsets, tier):
     chk.rule("F1.arith", floor=8, doc="E3: every arithmetic assert in FindChangePoints::next is discharged from the guards of the search (so release builds cannot wrap and spin)")
     rn.run_specs(chk, F, specs, "F1.arith", fsets[0])
     rt.check_kraft_monotone(chk, F, "F4.tables")
+    run_implied(chk, F)
     import rules_ivl
     rules_ivl.run_c20(chk, F, fsets[0], tier)
     rules_ivl.run_golomb(chk, F, fsets[0], tier, "C20")
 
     chk.assume("the debug assertions f(x) >= prev_value express the property's hypothesis (f non-decreasing) and are not obligations")
     chk.trust("rustc MIR construction and the mirx exporter; contracts; exact rational simplex")
+
+
+# ---- implied distribution (utils/implied.rs): set-up terminates and the sampler's indices are in range -------------------------
+CUTOFF = ("std::iter::Iterator::take_while", "std::iter::Iterator::map_while")      # adaptors that stop at the first rejected item
+PASSING = ("std::iter::Iterator::map", "std::iter::Iterator::inspect", "std::iter::Iterator::enumerate", "std::iter::IntoIterator::into_iter",
+           "std::iter::Iterator::by_ref", "std::iter::Iterator::peekable", "std::iter::Iterator::fuse")
+CONSUMERS = ("std::iter::Iterator::collect", "std::iter::Iterator::for_each", "std::iter::Iterator::fold", "std::iter::Iterator::count",
+             "std::iter::Iterator::last", "std::iter::Iterator::sum", "std::iter::Iterator::max", "std::iter::Iterator::min",
+             "std::iter::Iterator::filter", "std::iter::Iterator::skip_while", "std::iter::Iterator::find", "std::iter::Iterator::all", "std::iter::Iterator::any")
+MUTATORS = ("push", "extend", "insert", "truncate", "pop", "remove", "retain", "clear", "append", "resize", "dedup", "drain", "swap_remove", "extend_from_slice")
+
+
+def peel(t):
+    while isinstance(t, tuple) and t and t[0] in ("ref", "deref"):
+        t = t[1]
+    return t
+
+
+def run_implied(chk, F):
+    chk.rule("I1.cutoff", floor=2, doc="get_implied_distribution consumes the change-point iterator only through an adaptor that stops at the first item it rejects (take_while / map_while) and whose predicate bounds the length component by a constant: the set-up ends at the first length above the bound instead of walking every change point up to 2^64")
+    chk.rule("I2.weights", floor=2, doc="the weight vector is exactly collect(map(windows(change_points, 2))): one weight per pair of consecutive change points (len = len(change_points) - 1), and neither returned vector is modified afterwards")
+    chk.rule("I3.sampler", floor=2, doc="the sampler indexes change_points with idx and idx + 1 only, idx drawn from the WeightedIndex built from those weights (idx < number of weights), so both indices are in range")
+    b = F.body("utils::implied::get_implied_distribution")
+    ps = [p for p in mir.walk(b) if p.end[0] == "return"]
+    ok1 = ok2 = bool(ps)
+    why1 = why2 = None
+    for p in ps:
+        evs = p.calls()
+        byres = {e[3]: e for e in evs}
+        src = [e for e in evs if e[1].endswith("FindChangePoints::<F>::new") or e[1].endswith("FindChangePoints::new")]
+        if len(src) != 1:
+            ok1, why1 = False, "FindChangePoints::new is called %d times" % len(src)
+            continue
+        # follow the iterator value forward
+        cur = src[0][3]
+        cut = False
+        consumed = None
+        for e in evs:
+            if not e[8] or peel(e[8][0]) != cur:
+                continue
+            if e[1] in CUTOFF:
+                clo = e[8][1]
+                cname = clo[2] if isinstance(clo, tuple) and clo[0] == "agg" and clo[1] == "closure" else None
+                good = False
+                if cname:
+                    cb = F.body(cname)
+                    rets = [q.ret for q in mir.walk(cb) if q.end[0] == "return"]
+                    # the predicate is a comparison of the item's length component with a constant
+                    good = bool(rets) and all(isinstance(r, tuple) and r[0] == "binop" and r[1] in ("Le", "Lt") and mir.mentions(r[2], lambda x: x[0] == "field" and str(x[2]) == "1")
+                                              and isinstance(r[3], tuple) and r[3][0] == "const" for r in rets)
+                if not good:
+                    ok1, why1 = False, "the predicate of %s does not bound the length component by a constant" % e[1].split("::")[-1]
+                cut = True
+                cur = e[3]
+            elif e[1] in PASSING:
+                cur = e[3]
+            elif e[1] in CONSUMERS or e[1].startswith("std::iter::Iterator::"):
+                consumed = e
+                break
+        if consumed is None:
+            ok1, why1 = False, "the change-point iterator is never collected"
+        elif not cut:
+            ok1, why1 = False, "the change-point iterator reaches %s without take_while/map_while: every change point up to 2^64 is visited (no end in practice for codes with many short plateaus)" % consumed[1].split("::")[-1]
+        # I2
+        r = p.ret
+        comps = r[1] if isinstance(r, tuple) and r[0] == "tuple" else None
+        if not comps or len(comps) != 2:
+            ok2, why2 = False, "the result is not a pair of vectors"
+            continue
+        cp, wv = comps
+        ecp, ew = byres.get(cp), byres.get(wv)
+        chain_ok = ecp is not None and ew is not None and ecp[1] == "std::iter::Iterator::collect" and ew[1] == "std::iter::Iterator::collect" and ecp is consumed
+        if chain_ok:
+            m = byres.get(peel(ew[8][0]))
+            chain_ok = m is not None and m[1] == "std::iter::Iterator::map"
+            if chain_ok:
+                wnd = byres.get(peel(m[8][0]))
+                chain_ok = wnd is not None and wnd[1] == "core::slice::<impl [T]>::windows" and wnd[8][1][0] == "const" and wnd[8][1][1] == 2
+                if chain_ok:
+                    base = peel(wnd[8][0])
+                    d = byres.get(base)
+                    if d is not None and d[1] in ("std::ops::Deref::deref", "std::vec::Vec::<T, A>::as_slice", "std::vec::Vec::<T>::as_slice"):
+                        base = peel(d[8][0])
+                    chain_ok = base == cp
+        if not chain_ok:
+            ok2, why2 = False, "the weights are not collect(map(windows(change_points, 2), ..))"
+        for e in evs:
+            if e[1].split("::")[-1] in MUTATORS and e[8] and peel(e[8][0]) in (cp, wv):
+                ok2, why2 = False, "%s is applied to a returned vector after it was built: the weights no longer pair with the change points" % e[1].split("::")[-1]
+    chk.expect("I1.cutoff", "get_implied_distribution", ok1, "utils::implied::get_implied_distribution: %s" % why1)
+    chk.expect("I1.cutoff", "bound", ok1, "utils::implied::get_implied_distribution: %s" % why1)
+    chk.expect("I2.weights", "pairs", ok2, "utils::implied::get_implied_distribution: %s" % why2)
+    chk.expect("I2.weights", "unmodified", ok2, "utils::implied::get_implied_distribution: %s" % why2)
+    # I3
+    b = F.body("utils::implied::sample_implied_distribution")
+    ok3, why3 = True, None
+    caps = None
+    for p in mir.walk(b):
+        if p.end[0] != "return":
+            continue
+        evs = p.calls()
+        byres = {e[3]: e for e in evs}
+        g = [e for e in evs if e[1] == "utils::implied::get_implied_distribution"]
+        wi = [e for e in evs if e[1].endswith("WeightedIndex::<X>::new") or e[1].endswith("WeightedIndex::new")]
+        if len(g) != 1 or len(wi) != 1 or peel(wi[0][8][0]) != ("field", g[0][3], "1"):
+            ok3, why3 = False, "the WeightedIndex is not built from the weights returned by get_implied_distribution"
+            continue
+        for e in evs:
+            if e[1] == "std::iter::Iterator::map" and isinstance(e[8][1], tuple) and e[8][1][0] == "agg" and e[8][1][1] == "closure":
+                caps = (e[8][1][2], e[8][1][4], g[0][3], wi[0][3])
+    if caps is None:
+        ok3, why3 = False, why3 or "sampling closure not found"
+    else:
+        cname, upv, gres, wires = caps
+        # which captured slot holds the distribution / the change points
+        dist_slot = cp_slot = None
+        for i, u in enumerate(upv):
+            u0 = peel(u)
+            src = u0
+            if isinstance(u0, tuple) and u0[0] == "ret" and u0[2].endswith("::unwrap"):
+                src = wires            # unwrap of WeightedIndex::new
+                dist_slot = i
+            if u0 == ("field", gres, "0"):
+                cp_slot = i
+        cb = F.body(cname)
+        n_idx = 0
+        for q in mir.walk(cb):
+            if q.end[0] != "return":
+                continue
+            evs = q.calls()
+            samp = [e for e in evs if e[1] == "rand::distr::Distribution::sample"]
+            if len(samp) != 1 or dist_slot is None or not mir.mentions(samp[0][8][0], lambda x: x[0] == "field" and str(x[2]) == str(dist_slot)):
+                ok3, why3 = False, "the index is not drawn from the captured WeightedIndex"
+                continue
+            idx = samp[0][3]
+            for e in evs:
+                if e[1] != "std::ops::Index::index":
+                    continue
+                base, i = e[8]
+                if cp_slot is None or not mir.mentions(base, lambda x: x[0] == "field" and str(x[2]) == str(cp_slot)):
+                    continue
+                n_idx += 1
+                good = i == idx or (isinstance(i, tuple) and i[0] == "binop" and i[1] == "Add" and i[2] == idx and i[3][0] == "const" and i[3][1] == 1)
+                if not good:
+                    ok3, why3 = False, "change_points is indexed with %s (allowed: idx and idx + 1)" % mir.fmt(i)[:80]
+        if n_idx == 0:
+            ok3, why3 = False, why3 or "no indexing of change_points found in the sampler"
+    chk.expect("I3.sampler", "distribution", ok3, "utils::implied::sample_implied_distribution: %s" % why3)
+    chk.expect("I3.sampler", "indices", ok3, "utils::implied::sample_implied_distribution: %s" % why3)
